@@ -3,7 +3,7 @@
 # Re-creates a seeded patch on /repo's current HEAD: the source hunks are applied, and when the
 # patch also carried a regenerated peg.peg.go that file is regenerated with the patched peg.
 set -u
-OLD="$(realpath "$1")"; NEW="$2"
+OLD="$(realpath "$1")"; NEW="$(realpath -m "$2")"
 WT="$(mktemp -d /tmp/rebwt-XXXXXX)"; rmdir "$WT"
 git -C /repo worktree add -q --detach "$WT" HEAD || exit 2
 trap 'git -C /repo worktree remove --force "$WT" 2>/dev/null; rm -rf "$WT"' EXIT
